@@ -38,17 +38,17 @@ func ckptDebugStart(dbPath string) bool {
 		return false
 	}
 	ckptDbg.f, ckptDbg.path, ckptDbg.t0 = f, dbPath, time.Now()
-	litestream.VerifTracePoint = func(obj any, ev string) {
+	setTracePointExtra(func(obj any, ev string) {
 		switch ev {
 		case "chk.try", "ckpt.run", "pt.ckpt.bump", "chk.rel", "snap.pos", "chk.rlock", "chk.runlock", "exec.rel", "exec.try", "exec.acq":
 			ckptDebugLog(ev, "")
 		}
-	}
+	})
 	return true
 }
 
 func ckptDebugStop() {
-	litestream.VerifTracePoint = nil
+	setTracePointExtra(nil)
 	if ckptDbg.f != nil {
 		_ = ckptDbg.f.Close()
 		ckptDbg.f = nil
@@ -104,16 +104,18 @@ func ckptDebugLog(ev, extra string) {
 	ckptDbg.mu.Unlock()
 }
 
-// scenarioCkptFail is the deterministic form of finding F9b. At the trace point just
-// before the sequence bump of a FULL / RESTART checkpoint (everything is backfilled, the
-// read lock is held again on read-mark 0) the application commits once — which restarts
-// the WAL — and then holds the write lock, so bumpLitestreamSeq fails with SQLITE_BUSY and
-// checkpointWithExecutor returns before it compares the WAL headers. The published state is
-// "position = end of the previous generation, lastSyncedWALOffset = its last offset" while
-// the live WAL is a new generation. The application commits a few more transactions and a
-// DB.Snapshot is taken before the next sync.
-func scenarioCkptFail(out string) (detail string, err error) {
-	dir := filepath.Join(out, "ckptfail") + "/"
+// scenarioCkptFail is the deterministic form of finding F9b, one checkpoint mode per call.
+// At the trace point just before the sequence bump of the checkpoint (everything it could
+// backfill is backfilled, the read lock is held again) the application commits once — which
+// restarts a fully backfilled WAL — and then holds the write lock, so bumpLitestreamSeq
+// fails with SQLITE_BUSY and checkpointWithExecutor returns before it compares the WAL
+// headers and copies again. For TRUNCATE there is in addition one commit at the trace point
+// just before the PRAGMA (after the copy-before sync): the PRAGMA checkpoints it unseen. The
+// application then commits a few more transactions and a DB.Snapshot is taken before the
+// next sync. FULL / RESTART / PASSIVE were repaired by 5f481c7, 482a715, a637c7e; the
+// TRUNCATE shape (database file ahead of the position) is the remaining known finding.
+func scenarioCkptFail(out, mode string) (detail string, err error) {
+	dir := filepath.Join(out, "ckptfail-"+mode) + "/"
 	_ = os.RemoveAll(dir)
 	dbPath := filepath.Join(dir, "src", "db.sqlite")
 	e := &episode{dir: dir, dbPath: dbPath, repDir: dir + "rep", arcDir: dir + "arc", snapDir: dir + "snaps", c: cfg{MinCkptPages: 100000}}
@@ -141,25 +143,28 @@ func scenarioCkptFail(out string) (detail string, err error) {
 	if err = db.Open(); err != nil {
 		return "", err
 	}
-	defer func() { litestream.VerifTracePoint = nil }()
-	failed, nsnap := 0, 0
-	for k, mode := range []string{litestream.CheckpointModeFull, litestream.CheckpointModeRestart} {
-		for i := 0; i < 10; i++ { // frames in the WAL, all copied
-			if _, err = app.Exec(`UPDATE t SET w = ?, v = randomblob(3000) WHERE id = ?`, k+1, 1+i); err != nil {
-				return "", err
-			}
-		}
-		if err = db.SyncAndWait(ctx); err != nil {
+	defer setTracePointExtra(nil)
+	for i := 0; i < 10; i++ { // frames in the WAL, all copied
+		if _, err = app.Exec(`UPDATE t SET w = 1, v = randomblob(3000) WHERE id = ?`, 1+i); err != nil {
 			return "", err
 		}
-		var hold *sql.Tx
-		var once sync.Once
-		litestream.VerifTracePoint = func(obj any, ev string) {
-			if ev != "pt.ckpt.bump" {
-				return
+	}
+	if err = db.SyncAndWait(ctx); err != nil {
+		return "", err
+	}
+	var hold *sql.Tx
+	var onceRun, onceBump sync.Once
+	setTracePointExtra(func(obj any, ev string) {
+		switch ev {
+		case "ckpt.run":
+			if mode == litestream.CheckpointModeTruncate {
+				onceRun.Do(func() { // after the copy-before sync, before the PRAGMA
+					_, _ = app.Exec(`UPDATE t SET w = 99, v = randomblob(3000) WHERE id = 19`)
+				})
 			}
-			once.Do(func() {
-				_, _ = app.Exec(`UPDATE t SET w = 100, v = randomblob(3000) WHERE id = 20`) // restarts the WAL
+		case "pt.ckpt.bump":
+			onceBump.Do(func() {
+				_, _ = app.Exec(`UPDATE t SET w = 100, v = randomblob(3000) WHERE id = 20`) // restarts a fully backfilled WAL
 				if tx, e := app.Begin(); e == nil {
 					if _, e = tx.Exec(`UPDATE t SET w = 101, v = randomblob(3000) WHERE id = 21`); e == nil {
 						hold = tx // the write lock is held: the bump cannot get it
@@ -169,40 +174,38 @@ func scenarioCkptFail(out string) (detail string, err error) {
 				}
 			})
 		}
-		var cerr error
-		call("Checkpoint"+mode, func() { cerr = db.Checkpoint(ctx, mode) })
-		litestream.VerifTracePoint = nil
-		if hold != nil {
-			_ = hold.Commit()
-		}
-		if cerr != nil {
-			failed++
-		}
-		for i := 0; i < 6; i++ {
-			if _, err = app.Exec(`UPDATE t SET w = ?, v = randomblob(3000) WHERE id = ?`, 102+i, 30+i); err != nil {
-				return "", err
-			}
-		}
-		call("Snapshot", func() {
-			if _, e := db.Snapshot(ctx); e == nil {
-				nsnap++
-			}
-		})
-		call("Sync", func() { _ = db.Sync(ctx) })
+	})
+	var cerr error
+	call("Checkpoint"+mode, func() { cerr = db.Checkpoint(ctx, mode) })
+	setTracePointExtra(nil)
+	if hold != nil {
+		_ = hold.Commit()
 	}
+	for i := 0; i < 6; i++ {
+		if _, err = app.Exec(`UPDATE t SET w = ?, v = randomblob(3000) WHERE id = ?`, 102+i, 30+i); err != nil {
+			return "", err
+		}
+	}
+	var serr error
+	call("Snapshot", func() { _, serr = db.Snapshot(ctx) })
 	var e1, e2 error
 	call("SyncAndWait", func() { e1 = db.SyncAndWait(ctx) })
 	call("DBClose", func() { e2 = db.Close(ctx) })
 	if e1 != nil || e2 != nil {
 		return "", fmt.Errorf("final sync/close: %v / %v", e1, e2)
 	}
-	rep := map[string]any{"how": "harness conc -n 0 (scenario ckptfail)",
-		"history": "OPEN; 10 writes; SyncAndWait; Checkpoint(FULL) with, at trace point pt.ckpt.bump: one application commit (restarts the fully backfilled WAL) then an application write transaction left open (bumpLitestreamSeq gets SQLITE_BUSY, the checkpoint returns that error); commit it; 6 more commits; Snapshot; Sync; the same with RESTART; SyncAndWait; Close; every snapshot 1..n against Restore(TXID=n) of the L0 chain"}
+	extra := ""
+	if mode == litestream.CheckpointModeTruncate {
+		extra = "one application commit at trace point ckpt.run (after the copy-before sync, before the PRAGMA); "
+	}
+	rep := map[string]any{"how": "harness conc -n 0 (scenario ckptfail, mode " + mode + ")",
+		"history": "OPEN; 10 writes; SyncAndWait; Checkpoint(" + mode + ") with " + extra + "at trace point pt.ckpt.bump one application commit, then an application write transaction left open (bumpLitestreamSeq gets SQLITE_BUSY, the checkpoint returns that error); commit it; 6 more commits; Snapshot; SyncAndWait; Close; the snapshot 1..n against Restore(TXID=n) of the L0 chain"}
 	before := nViols()
 	n := snapshotOracle("uploaded", snapshotFiles(e.snapDir, true), e.arcDir, dir+"scratch", rep, "C12/", map[ltx.TXID]int{}, e.snapDir)
+	res := fmt.Sprintf("checkpoint: %v; snapshot: %v; %d snapshot(s) checked", cerr, serr, n)
 	if nViols() == before {
 		_ = os.RemoveAll(dir)
-		return fmt.Sprintf("%d of 2 checkpoints failed after the WAL restart, %d snapshots, all equal to the L0 chain at their TXID", failed, n), nil
+		return res + ": equal to the L0 chain at their TXID (or refused)", nil
 	}
-	return fmt.Sprintf("%d of 2 checkpoints failed after the WAL restart, %d snapshots checked: a snapshot contains the commits of the new WAL generation although its position is the end of the old one", failed, n), nil
+	return res + ": the snapshot does not match the position it advertises", nil
 }
